@@ -132,7 +132,7 @@ def build_driver():
     """Extraction (ExtrOcamlBasic only) + ocamlopt of the hand-written driver."""
     od = BUILD / 'ocaml'
     od.mkdir(parents=True, exist_ok=True)
-    srcs = sorted((ROOT / 'ocaml').glob('*.ml')) + [COQ / 'Extract' / 'Extract.v'] + sorted(COQ.glob('Model/*.v')) + sorted(COQ.glob('Spec/*.v'))
+    srcs = sorted((ROOT / 'ocaml').glob('*.ml')) + [COQ / 'Extract' / 'Extract.v'] + sorted(COQ.rglob('Model/**/*.v')) + sorted(COQ.glob('Model/*.v')) + sorted(COQ.glob('Spec/*.v'))
     stamp = od / 'stamp'
     h = file_hash(srcs)
     if DRIVER.exists() and stamp.exists() and stamp.read_text() == h:
@@ -143,7 +143,7 @@ def build_driver():
         return False, (out + err)[-4000:]
     for f in (ROOT / 'ocaml').glob('*.ml'):
         shutil.copy(f, od / f.name)
-    order = ['model.mli', 'model.ml', 'drv_base.ml', 'drv_ast.ml', 'drv_ir.ml'] + sorted(f.name for f in (ROOT / 'ocaml').glob('drv_c*.ml')) + ['driver.ml']
+    order = ['model.mli', 'model.ml', 'drv_base.ml', 'drv_ast.ml', 'drv_ir.ml', 'drv_front.ml', 'drv_gen.ml'] + sorted(f.name for f in (ROOT / 'ocaml').glob('drv_lang_*.ml')) + sorted(f.name for f in (ROOT / 'ocaml').glob('drv_c*.ml')) + ['driver.ml']
     rc, out, err = run(['ocamlfind', 'ocamlopt', '-w', '-a'] + order + ['-o', 'driver'], cwd=od, timeout=1000)
     if rc != 0:
         return False, (out + err)[-4000:]
